@@ -518,3 +518,25 @@ M("c12-coalesce-flag-cleared-last", "C12", "C12.ORDER",
   (CFGS, "        ts = self._last_update\n        if self._task_handler is not None:", "        ts = self._last_update\n        self._unpublished = True\n        if self._task_handler is not None:"),
   (CFGS, "        with self._update_lock:\n            current_hash = self._current_hash", "        with self._update_lock:\n            if not self._unpublished:\n                return\n            current_hash = self._current_hash"),
   (CFGS, "                    logging.exception(\"Error updating listener %s\", listeners)\n", "                    logging.exception(\"Error updating listener %s\", listeners)\n            self._unpublished = False\n"))
+
+# ------------------------------------------------------------------ round-4 rules
+ESNAP = "src/deep/api/tracepoint/eventsnapshot.py"
+TLOC = "src/deep/thread_local.py"
+OTM = "src/deep/api/plugin/metric/otel_metrics.py"
+M("c01-global-random-stream", "C01", "C01.R3", (ESNAP, "import uuid\n", "import uuid\nimport random\n"),
+  (ESNAP, "        self._id = uuid.uuid4().int", "        self._id = random.getrandbits(128)"))
+M("c09-refusal-swallowed", "C09", "C09.D", (PUSHS, """        task = self.task_handler.submit_task(self._push_task, snapshot)
+        task.add_done_callback(
+            lambda _: logging.debug("Completed uploading snapshot %s", snapshot_id_as_hex_str(snapshot.id)))
+""", """        try:
+            task = self.task_handler.submit_task(self._push_task, snapshot)
+        except Exception:
+            logging.debug("Cannot upload snapshot %s", snapshot_id_as_hex_str(snapshot.id))
+            return
+        task.add_done_callback(
+            lambda _: logging.debug("Completed uploading snapshot %s", snapshot_id_as_hex_str(snapshot.id)))
+"""))
+M("c15-threadlocal-shared-flag", "C15", "C15.THREAD", (TLOC, "        self.__store.value = val\n", "        self.__store.value = val\n        self.__any_set = True\n"))
+M("c20-base-ctor-args-swapped", "C20", "C20.LOAD", (OTM, 'super().__init__("OTelMetrics", config)', 'super().__init__(config, "OTelMetrics")'))
+R("c20-base-ctor-keywords", "C20", (OTM, 'super().__init__("OTelMetrics", config)', 'super().__init__(name="OTelMetrics", config=config)'))
+R("c15-threadlocal-extra-ctor-field", "C15", (TLOC, "        self.__store = threading.local()\n", "        self.__store = threading.local()\n        self.__created_by = threading.get_ident()\n"))
